@@ -421,6 +421,17 @@ Variable ab : F.
 Fixpoint Hf (T : nat -> F) (b : nat) (a : nat) : F :=
   match b with O => T a | S b' => Hf T b' (S a) + ab * Hf T b' a end.
 
+Lemma Hf_local T T' : forall b a, (forall j, a <= j <= a + b -> T j = T' j) -> Hf T b a = Hf T' b a.
+Proof. induction b as [|b IH]; intros a H; cbn [Hf]; [apply H; lia|].
+  rewrite (IH (S a)), (IH a) by (intros; apply H; lia). reflexivity. Qed.
+Lemma Hf_ext T T' : (forall j, T j = T' j) -> forall b a, Hf T b a = Hf T' b a.
+Proof. intros H b a. apply Hf_local. intros; apply H. Qed.
+(* linearity in the starting line *)
+Lemma Hf_add T1 T2 : forall b a, Hf (fun j => T1 j + T2 j) b a = Hf T1 b a + Hf T2 b a.
+Proof. induction b as [|b IH]; intros a; cbn [Hf]; [reflexivity|]. rewrite !IH. ring. Qed.
+Lemma Hf_scale T k : forall b a, Hf (fun j => T j * k) b a = Hf T b a * k.
+Proof. induction b as [|b IH]; intros a; cbn [Hf]; [reflexivity|]. rewrite !IH. ring. Qed.
+
 (* binomial coefficients by Pascal's rule, computed in the field *)
 Fixpoint binF (n k : nat) : F :=
   match n, k with
@@ -787,6 +798,33 @@ Proof.
   intros x' y' z' _ _ _ _. destruct axis as [|[|ax]]; reflexivity.
 Qed.
 End HIterList.
+
+(* ---- the three horizontal passes of OneElec.hrr: [bx][by][bz] cube over a ---- *)
+Section Hrr3.
+Variables (L lb : nat) (abx aby abz : F) (t : @cube F).
+
+Definition H3g (Tf : nat -> nat -> nat -> F) (bx by_ bz ax ay az : nat) : F :=
+  Hf K abz (fun az' => Hf K aby (fun ay' => Hf K abx (fun ax' => Tf ax' ay' az') bx ax) by_ ay) bz az.
+
+Lemma hiter_length ax ab n (cu : @cube F) : length (hiter K L ax ab n cu) = S n.
+Proof. revert cu; induction n as [|n IH]; intros cu; cbn [hiter length]; [reflexivity|]. now rewrite IH. Qed.
+
+Theorem hrr3_entry bx by_ bz ax ay az :
+  bx <= lb -> by_ <= lb -> bz <= lb -> ax + bx <= L -> ay + by_ <= L -> az + bz <= L ->
+  cget K (nth bz (nth by_ (nth bx (hrr K L lb abx aby abz t) []) []) []) ax ay az
+  = H3g (fun x y z => cget K t x y z) bx by_ bz ax ay az.
+Proof.
+  intros Hbx Hby Hbz Hx Hy Hz. unfold hrr, H3g.
+  rewrite (nth_map_lt (A:=@cube F) (B:=list (list (@cube F))) _ _ bx [] []) by (rewrite hiter_length; lia).
+  rewrite (nth_map_lt (A:=@cube F) (B:=list (@cube F)) _ _ by_ [] []) by (rewrite hiter_length; lia).
+  rewrite (hiter_entry L 2) by (cbn [idx]; lia). unfold line, idx; cbv beta iota.
+  apply (Hf_local K). intros jz Hjz. cbv beta.
+  rewrite (hiter_entry L 1) by (cbn [idx]; lia). unfold line, idx; cbv beta iota.
+  apply (Hf_local K). intros jy Hjy. cbv beta.
+  rewrite (hiter_entry L 0) by (cbn [idx]; lia). unfold line, idx; cbv beta iota.
+  reflexivity.
+Qed.
+End Hrr3.
 
 (* ---- the all-s closed form (_two_elec_int.py:8-145) is the general path with L = 0 ---- *)
 Definition eri_pref (A B C D : F * F * F) (alpha beta gamma delta : F) : F :=
